@@ -1134,6 +1134,20 @@ def correspond_histories(run: Run, n: int) -> None:
 # --------------------------------------------------------------------------------------
 # (b) lexer: real Parser.advance vs Lean model on the real tokenizer's matches
 # --------------------------------------------------------------------------------------
+def match_text(p, m) -> str:
+    """protocol text of one tokenizer match: <group letter><name_pattern flag>:<code points>:<end offset>"""
+    lit, sym, name, unk = m.groups()
+    if sym is not None:
+        return ('s1' if p.name_pattern.match(sym) is not None else 's0') + ':' + enc(sym) + f':{m.end()}'
+    if lit is not None:
+        return 'l0:' + enc(lit) + f':{m.end()}'
+    if name is not None:
+        return 'n0:' + enc(name) + f':{m.end()}'
+    if unk is not None:
+        return 'u0:' + enc(unk) + f':{m.end()}'
+    return 'w0:' + enc(m.group()) + f':{m.end()}'
+
+
 def lexer_case(v: str, src: str, own: bool = False):
     """own=False: the base `Parser.advance`; own=True: the parser class's own `advance` (for 2.0+ the
     comment-skipping `XPath2Parser.advance`)"""
@@ -1141,20 +1155,21 @@ def lexer_case(v: str, src: str, own: bool = False):
     from elementpath import ElementPathError
     p = new_parser(v)
     matches = list(p.tokenizer.finditer(src))
-    parts = []
-    for m in matches:
-        lit, sym, name, unk = m.groups()
-        if sym is not None:
-            parts.append(('s1' if p.name_pattern.match(sym) is not None else 's0') + ':' + enc(sym))
-        elif lit is not None:
-            parts.append('l0:' + enc(lit))
-        elif name is not None:
-            parts.append('n0:' + enc(name))
-        elif unk is not None:
-            parts.append('u0:' + enc(unk))
-        else:
-            parts.append('w0:' + enc(m.group()))
+    parts = [match_text(p, m) for m in matches]
     line = f'L v={v} a={2 if own else 1} m=' + ';'.join(parts)
+    if own:
+        # the live XPath2Parser.advance scans comments on the raw source and re-tokenizes after them: the model
+        # gets the source and, for every offset p just after a `:)`, what tokenizer.finditer(source, p) returns
+        retok = []
+        pos = src.find(':)')
+        seen_p = set()
+        while pos >= 0 and len(seen_p) < 200:
+            q = pos + 2
+            if q not in seen_p:
+                seen_p.add(q)
+                retok.append(f'{q}@' + ';'.join(match_text(p, m) for m in p.tokenizer.finditer(src, q)))
+            pos = src.find(':)', pos + 1)
+        line += f' src={enc(src)} r=' + '~'.join(retok)
     p.source = src
     p.tokens = iter(matches)
     syms, err = [], '-'
